@@ -221,6 +221,40 @@ type world struct {
 	cli   *gmtls.Config
 	seq   byte
 	inner *gmtls.Config // related == 2: the Config that S1's GetConfigForClient hands out
+	kept  []keptConn    // every connection made so far, with what it reported when it was made
+}
+
+// keptConn: both Conn objects of an earlier connection and their view at the time. A connection's
+// session - master secret (seen through ExportKeyingMaterial) and peer certificates - is its own:
+// nothing a LATER connection does may change it.
+type keptConn struct {
+	cl, sv       *gmtls.Conn
+	ekm          []byte
+	cPeer, sPeer [][]byte
+	what         string
+}
+
+// recheck compares every earlier connection with what it reported when it was made.
+func (w *world) recheck() string {
+	for _, k := range w.kept {
+		for side, cn := range []*gmtls.Conn{k.cl, k.sv} {
+			st := cn.ConnectionState()
+			ekm, err := st.ExportKeyingMaterial("EXPORTER-verif", []byte("ctx"), 32)
+			if err != nil || !bytes.Equal(ekm, k.ekm) {
+				return fmt.Sprintf("%s: exported keying material of the %s end was %x and is now %x (%v)", k.what, []string{"client", "server"}[side], k.ekm, ekm, err)
+			}
+			want := [][][]byte{k.cPeer, k.sPeer}[side]
+			if len(st.PeerCertificates) != len(want) {
+				return fmt.Sprintf("%s: the %s end reported %d peer certificates and now reports %d", k.what, []string{"client", "server"}[side], len(want), len(st.PeerCertificates))
+			}
+			for i, pc := range st.PeerCertificates {
+				if !bytes.Equal(pc.Raw, want[i]) {
+					return fmt.Sprintf("%s: peer certificate %d of the %s end changed after later connections", k.what, i, []string{"client", "server"}[side])
+				}
+			}
+		}
+	}
+	return ""
 }
 
 func newWorld(v variant) (*world, *model) {
@@ -283,6 +317,14 @@ func opName(op int) string {
 		"S0.suites:=[GCM]", "S0.suites:=[CBC,GCM]", "client.suites:=[GCM]", "S0.ClientAuth:=RequireAny", "S0.ClientAuth:=None", "S0.disableTickets"}[op]
 }
 
+func cloneCerts(in [][]byte) [][]byte {
+	var out [][]byte
+	for _, c := range in {
+		out = append(out, append([]byte{}, c...))
+	}
+	return out
+}
+
 func opNameV(v variant, op int) string {
 	if v.versions {
 		switch op {
@@ -312,7 +354,11 @@ func apply(w *world, m *model, op int) (o *tlsk.Outcome, verdict int, why string
 		verdict, why = m.predict(si, name)
 		w.cli.ServerName = name
 		var cv, sv tlsk.View
-		o = tlsk.Run(tlsk.GMEnd(w.cli, true, app[0], &cv, nil), tlsk.GMEnd(w.srv[si], false, app[1], &sv, nil), &cv, &sv, nil)
+		var kc, ks *gmtls.Conn
+		o = tlsk.Run(tlsk.GMEnd(w.cli, true, app[0], &cv, &kc), tlsk.GMEnd(w.srv[si], false, app[1], &sv, &ks), &cv, &sv, nil)
+		if o.C.Complete && o.S.Complete && kc != nil && ks != nil && o.C.Panic == nil && o.S.Panic == nil {
+			w.kept = append(w.kept, keptConn{kc, ks, append([]byte{}, o.C.EKM...), cloneCerts(o.C.PeerCerts), cloneCerts(o.S.PeerCerts), fmt.Sprintf("connection %d (%s, resumed=%v)", len(w.kept)+1, opName(op), o.C.DidResume)})
+		}
 		return
 	case op == 4 || op == 5 || op == 6:
 		si = 0
@@ -471,6 +517,10 @@ func histUnit(v variant, first, depth int) harness.Unit {
 					}
 				} else {
 					origCerts[name] = o.C.PeerCerts
+				}
+				if why := w.recheck(); why != "" {
+					c.Violate("earlier-connection-changed:"+v.name, fmt.Sprintf("[%s] %s", tag, why), x.Choices, tag)
+					return
 				}
 				suite := o.C.Suite
 				m.after(si, name, res, suite)
